@@ -537,3 +537,45 @@ pub fn retain_lite<S: Src, const STRUCT: bool, const N: usize>(s: &mut S) {
     cover!(s, N < 3 || (pre.count > kept && map.__verif_free().len() >= 2), "a rejection collapsed a value-less parent");
     std::mem::forget(map);
 }
+
+/// C04/C10/C01: retain (keep even values) on the 3-slot fork root -> {1, 2} (concrete child
+/// indices, leaves; prefixes and values symbolic): the smallest shape in which a rejected entry keeps
+/// both children (the root), with recursion depth 2 only.
+pub fn retain_fork<S: Src>(s: &mut S) {
+    const N: usize = 3;
+    let mut nodes = any_nodes::<S, N>(s);
+    nodes[0].2 = Some(1);
+    nodes[0].3 = Some(2);
+    nodes[1].2 = None;
+    nodes[1].3 = None;
+    nodes[2].2 = None;
+    nodes[2].3 = None;
+    let r = [true; N];
+    s.assume(wf(&nodes, &r));
+    let cnt = count(&nodes, &r);
+    let mut map = mk_map::<N, 0>(&nodes, &Free::<0>::empty(), cnt, N, N);
+    let q = any_p(s);
+    let mut calls = 0usize;
+    map.retain(|_, v| {
+        calls += 1;
+        *v & 1 == 0
+    });
+    let mut kept = 0usize;
+    let mut i = 0;
+    while i < N {
+        if nodes[i].1.map(|v| v & 1 == 0).unwrap_or(false) {
+            kept += 1;
+        }
+        i += 1;
+    }
+    check!(s, calls == cnt, "C10:retain evaluates the predicate once per stored entry");
+    check!(s, map.len() == kept && map.is_empty() == (kept == 0), "C04:len() after retain");
+    let exp = lookup(&nodes, &r, &q).map(|i| (nodes[i].0, nodes[i].1.unwrap())).filter(|x| x.1 & 1 == 0);
+    check!(s, map.get_key_value(&q).map(|(p, v)| (*p, *v)) == exp, "C10,C01:retain removes exactly the rejected entries and keeps the others with value and representation");
+    let (post, _) = readback::<N>(&map);
+    let pr = reach(&post);
+    check!(s, map.__verif_count() == count(&post, &pr), "INV,C04,C15:counter equals number of reachable entries");
+    cover!(s, nodes[0].1.map(|v| v & 1 == 1).unwrap_or(false) && kept == 2, "root rejected, both leaves kept");
+    cover!(s, kept == 0 && cnt == 3, "everything rejected");
+    std::mem::forget(map);
+}
